@@ -45,6 +45,12 @@ def cases(tier):
         for plan in TWO_STEP:
             out.append({'fn': 'run_race', 'id': f'race/omit{omit}/' + '+'.join('.'.join(t) for t in plan),
                         'params': {'plan': [list(t) for t in plan], 'omit': omit, 'preempt': pre}})
+        # the connection is activated while the driver threads are at work
+        for a in OPS[:5]:
+            out.append({'fn': 'run_race', 'id': f'race/omit{omit}/activate+{a}', 'params': {'plan': [['activate'], [a]], 'omit': omit, 'preempt': pre}})
+        for plan in (('read-err', 'read'), ('assign', 'announce-err'), ('read-err', 'assign-same')):
+            out.append({'fn': 'run_race', 'id': f'race/omit{omit}/activate+' + '.'.join(plan),
+                        'params': {'plan': [['activate'], list(plan)], 'omit': omit, 'preempt': pre}})
     return out
 
 
@@ -83,7 +89,9 @@ def _run_race(env, p, cosched):
     clock = [0]
     conn = LockedConn('c0', cosched.CoLock, clock)
     srv.dispatcher.add_connection(conn)
-    srv.dispatcher.handle_request(conn, ('activate', None, None))
+    late_activation = any('activate' in ops for ops in p['plan'])
+    if not late_activation:
+        srv.dispatcher.handle_request(conn, ('activate', None, None))
     state = fold([m for _, m in conn.sent], {})
     n0 = len(conn.sent)
     truth = {'v': [], 'n': []}
@@ -98,7 +106,9 @@ def _run_race(env, p, cosched):
                 counter[0] += 1
                 x = counter[0] + 0.5     # distinct values in the order the operations start
                 try:
-                    if op == 'assign':
+                    if op == 'activate':
+                        srv.dispatcher.handle_request(conn, ('activate', None, None))
+                    elif op == 'assign':
                         mod.v = x
                     elif op == 'assign-same':
                         mod.v = mod.v
@@ -141,6 +151,14 @@ def _run_race(env, p, cosched):
         want = []
         for a in truth[par]:
             want.append(('ok', a[0]) if len(a) == 1 else ('err', a[1].name, str(a[1])))
+        if late_activation:
+            # activated somewhere in between: a snapshot plus a suffix of the changes; every message is a state the cache held
+            held = [('ok', 0.0 if par == 'v' else 0)] + want
+            for a in stream:
+                env.check(any(a[0] == b[0] and M.eq(list(a[1:]), list(b[1:])) for b in held), K + '/message-carries-a-state-the-cache-never-held',
+                          [par, a, held])
+            env.check(len(stream) >= 1, K + '/no-snapshot-for-parameter', par)
+            continue
         env.check(len(stream) == len(want), K + '/number-of-messages-differs-from-cache-changes', [par, stream, want])
         if len(stream) == len(want):
             for a, b in zip(stream, want):
